@@ -1,18 +1,68 @@
-import Sucds.Proofs.EliasFanoHistory
-/-! # C16 — EliasFanoBuilder accepts exactly the valid pushes and builds what it accepted (partial)
+import Sucds.Props.C04
+/-! # C16 — EliasFanoBuilder accepts exactly the valid pushes and builds what it accepted
 
-Proved: `new(u, 0)` is rejected; for every `(u, m)` with `m ≥ 1` and every push history the builder never
-panics, its verdicts are exactly the greedy acceptance (`≥ last`, `< u`, fewer than `m` accepted), a
-rejected push has no effect on what follows, and `select` reads back exactly the accepted values given
-the `select1` answers of the high-bit index. Missing: `build` (the `DArray` over the high bits, C02) and
-`extend` as the same loop stopped at the first rejection. -/
+* `EliasFanoBuilder::new(u, 0)` is rejected.
+* For every universe `u < 2^64`, capacity `m ≥ 1`, **every** history of pushes and every build configuration:
+  the builder never panics; the verdict of each push is `true` iff the value is `≥` the last accepted one,
+  `< u`, and fewer than `m` values were accepted so far (`verdicts`, the greedy acceptance); a rejected push
+  returns the builder unchanged (`rejected_push_no_effect`), so it has no effect on later behaviour;
+  `extend` is the same loop stopped at the first rejected item, keeping the earlier ones (`extend_spec`);
+  `build()` yields exactly the accepted values with universe `u` — read back through `len`, `universe` and
+  `select` (and every other query of C04). -/
 namespace Sucds.C16
-open Sucds Sucds.Spec Sucds.EFB
+open Sucds Sucds.Spec Sucds.EFB Sucds.EFQ
 
-theorem new_zero_rejected (u : Nat) : new u 0 = none := new_zero u
+def Statement : Prop :=
+  (∀ u, EFB.new u 0 = none) ∧
+  (∀ (c : Cfg) (u m : Nat) (hist : List Nat), m ≠ 0 → u < 2^64 →
+    ∃ b0 b', EFB.new u m = some b0 ∧ EFB.run b0 hist = .ok (b', verdicts u m [] hist) ∧
+      ((EF.ofBuilder c b').enableRank c).len = (accepted u m [] hist).length ∧
+      ((EF.ofBuilder c b').enableRank c).univ = u ∧
+      (∀ k, ((EF.ofBuilder c b').enableRank c).select c k = .ok (accepted u m [] hist)[k]?) ∧
+      (EF.ofBuilder c b').len = (accepted u m [] hist).length ∧ (EF.ofBuilder c b').univ = u ∧
+      (∀ k, (EF.ofBuilder c b').select c k = .ok (accepted u m [] hist)[k]?))
 
-theorem histories (u m : Nat) (hm : m ≠ 0) (hu : u < 2^64) (hist : List Nat) :
-    ∃ b0 b', new u m = some b0 ∧ run b0 hist = .ok (b', verdicts u m [] hist) ∧
-      ∀ k, b'.selectWith (sel b'.high.bitAt b'.high.len k) k = .ok (accepted u m [] hist)[k]? :=
-  run_select u m hm hu hist
+theorem holds : Statement := by
+  refine ⟨new_zero, ?_⟩
+  intro c u m hist hm hu
+  obtain ⟨b0, hn, hh, hu0, hm0⟩ := new_holds u m hm hu
+  obtain ⟨b', hr, hh', hub, _⟩ := run_spec hist b0 [] hh
+  rw [hu0, hm0] at hr hh'
+  rw [hu0] at hub
+  have hu' : b'.univ < 2^64 := by rw [hub]; exact hu
+  obtain ⟨a1, a2, _⟩ := ranked_queries c b' _ hh' hu' (high_enableRank c b' _ hh')
+  obtain ⟨b1, b2, _⟩ := built_queries c b' _ hh' hu' (high_ofBuilder c b' _ hh')
+  exact ⟨b0, b', hn, hr, a1, hub, a2, b1, hub, b2⟩
+
+/-- a rejected push returns `Err` and the builder unchanged -/
+theorem rejected_push_no_effect (b : EFB) (v : Nat) (h : v < b.last ∨ b.univ ≤ v ∨ b.numVals ≤ b.pos) :
+    b.push v = .ok (b, false) := push_rej b v h
+
+/-- the verdicts are the greedy acceptance: `true` iff `≥ last accepted`, `< u`, fewer than `m` accepted -/
+theorem verdict_meaning (u m : Nat) (acc : List Nat) (v : Nat) (vs : List Nat) :
+    verdicts u m acc (v :: vs) =
+      (if acc.getLast?.getD 0 ≤ v ∧ v < u ∧ acc.length < m then true :: verdicts u m (acc ++ [v]) vs
+       else false :: verdicts u m acc vs) := rfl
+
+/-- `extend` = the push loop stopped at the first rejected item (earlier items are kept) -/
+theorem extend_spec : ∀ (vs : List Nat) (b : EFB) (xs : List Nat), Holds b xs →
+    ∃ b' n, n ≤ vs.length ∧ EFB.extend b vs = .ok (b', decide (n = vs.length)) ∧
+      Holds b' (xs ++ vs.take n) ∧ b'.univ = b.univ ∧ b'.numVals = b.numVals ∧
+      (∀ v, vs[n]? = some v → v < b'.last ∨ b'.univ ≤ v ∨ b'.numVals ≤ b'.pos) := by
+  intro vs
+  induction vs with
+  | nil => intro b xs h; exact ⟨b, 0, Nat.le_refl _, rfl, by simpa using h, rfl, rfl, fun v hv => by simp at hv⟩
+  | cons v vs ih =>
+    intro b xs h
+    by_cases hacc : b.last ≤ v ∧ v < b.univ ∧ b.pos < b.numVals
+    · obtain ⟨b1, hp, hh1, hu1, hm1, _⟩ := push_holds b xs h v hacc.1 hacc.2.1 hacc.2.2
+      obtain ⟨b', n, hn, he, hh', hu', hm', hrej⟩ := ih b1 (xs ++ [v]) hh1
+      refine ⟨b', n + 1, by simp; omega, ?_, by simpa [List.take_succ_cons] using hh', by rw [hu', hu1], by rw [hm', hm1], ?_⟩
+      · simp only [EFB.extend, hp, Except.bind, if_true]
+        rw [he]; simp
+      · intro w hw; simp at hw; exact hrej w hw
+    · have hrej : v < b.last ∨ b.univ ≤ v ∨ b.numVals ≤ b.pos := by omega
+      refine ⟨b, 0, Nat.zero_le _, ?_, by simpa using h, rfl, rfl, ?_⟩
+      · simp only [EFB.extend, push_rej b v hrej, Except.bind]; simp
+      · intro w hw; simp at hw; subst hw; exact hrej
 end Sucds.C16
